@@ -10,7 +10,8 @@ from .. import core, sshutil
 from .. import c03_wire as W
 from ..core import cbool, clist, copt
 
-IMPORTS = 'From AV Require Import Base.Prelude Model.Packet Model.Kex Corr.C03Corr.'
+IMPORTS = ('From AV Require Import Base.Prelude Model.Packet Model.Kex Corr.C03Corr.\n'
+           'From Coq Require Import Uint63.')
 
 NAMES8 = ('kex', 'hostkey', 'enc_cs', 'enc_sc', 'mac_cs', 'mac_sc', 'cmp_cs', 'cmp_sc')
 
@@ -19,12 +20,14 @@ NAMES8 = ('kex', 'hostkey', 'enc_cs', 'enc_sc', 'mac_cs', 'mac_sc', 'cmp_cs', 'c
 # Coq literals
 
 def hx(b):
-    return '(hx "%s"%%bstr)' % bytes(b).hex()
+    """bytes -> Coq term of type list Z (see Corr/C03Corr.v wx)"""
+    b = bytes(b)
+    return '(wx %d [%s]%%uint63)' % (len(b), ';'.join('0x' + b[i:i + 7].hex() for i in range(0, len(b), 7)))
 
 
 def zi(n):
     a = abs(int(n))
-    return '(zi %s "%s"%%bstr)' % (cbool(n < 0), a.to_bytes((a.bit_length() + 7) // 8, 'big').hex())
+    return '(wi %s %s)' % (cbool(n < 0), hx(a.to_bytes((a.bit_length() + 7) // 8, 'big')))
 
 
 def _b(x, who):
@@ -601,11 +604,11 @@ def stage_sweep(ctx, rec, aead):
             exact = (not gex_old) and is_exact(fam, spec)
             same = W.bound_part(vc) == W.bound_part(vs)
             ctx.note_case(('sweep', kex, tuple(map(str, spec))), nontrivial=True)
-            if len(sweep_cases) < (3000 if thorough else 360) and (exact or completed) and (thorough or spec[0] != 'kexinit' or kex in methods[:2]):
+            if len(sweep_cases) < (4000 if thorough else 700) and (exact or completed):
                 sweep_cases.append('(%s, %s, %s, %s)' % (coq_view(vc, 'c'), coq_diffs(vc, vs), cbool(completed), cbool(exact)))
                 sweep_meta.append((kex, spec, completed, same))
             # the bytes each side really hashed, under the edit
-            if len(hcases) < (1500 if thorough else 150) and (spec[0] != 'byte' or completed) and (thorough or spec[0] != 'kexinit' or rng.random() < 0.15):
+            if len(hcases) < (2500 if thorough else 400) and (spec[0] != 'byte' or completed) and (thorough or spec[0] != 'kexinit' or rng.random() < 0.3):
                 for who, v in (('c', vc), ('s', vs)):
                     hc = hash_cases(r, who, v)
                     if hc:
